@@ -45,6 +45,13 @@ CONVERSIONS = [
 
 CONV_SCALE = {json.dumps([own, to]): sc for own, to, sc in CONVERSIONS if to is not None}
 
+TABLE_KEYS = ['H2O', 'H+', 'OH-', 'Na+', 'Cl-', 'Fe+3', 'NH4+', 'SO4-2', 'H2', 'O2', 'CO2', 'NH3']
+CONC_UNITS = [[['molar', 1]], [['mM', 1]], [['uM', 1]], [['mol', 1], ['metre', -3]], [['mol', 1], ['dm', -3]], [['molal', 1]],
+              [['mol', 1], ['kg', -1]], [['gram', 1], ['dm', -3]]]
+KEYED = ('dict', 'odict', 'qdict')
+POSITIONAL = ('list', 'tuple', 'ndarray')
+ROW_RE = re.compile(r'<tr><td>(.*?)</td>\n<td>(.*?)</td></tr>', re.S)
+
 RXNS = [{'reac': {'H+': 1, 'OH-': 1}, 'prod': {'H2O': 1}}, {'reac': {'H2O': 2}, 'prod': {'H2': 2, 'O2': 1}},
         {'reac': {'NH3': 1, 'H2O': 1}, 'prod': {'NH4+': 1, 'OH-': 1}}]
 
@@ -308,6 +315,8 @@ class C20(Property):
             'near-ties (k5 one place below the kept digit), values hugging powers of ten, uncertainties rounding up to a power of ten, nominal '
             'powers of ten; uncertainty passed explicitly or carried by a quantities.UncertainQuantity, with/without unit= of another scale (13 '
             'conversions) in all three renderers; '
+            'per-substance HTML tables: dict / OrderedDict / QuantityDict / list / tuple / ndarray x plain numbers, quantities in one compound unit, scalar '
+            'quantities with mixed prefixes (M, mM, uM, mol/m3, mol/dm3, molal ...), container order != substance order, substances given or derived; '
             'roman 0..5000 and large; reactions with quantity/float/int/str/None parameters on the four printers. '
             'A case is non-trivial when it is a distinct JSON value.')
     assumptions = (
@@ -333,6 +342,11 @@ class C20(Property):
         'unit handling of _number_to_X: unit_of(number), to_unitless(number, unit), rescaling of an explicit or carried (UncertainQuantity) '
         'uncertainty to the requested unit, and the unit text itself (compound units are opaque strings in the model): oracle reads value and '
         'uncertainty back in the printed unit and compares with the given quantity; correspondence',
+        'as_per_substance_html_table / Table._html: Substance.from_formula and html_name, the Python container protocols (cont[k] raising TypeError / '
+        'IndexError for list, tuple, ndarray; dict, OrderedDict, QuantityDict lookups; numpy element access keeping the unit of an array Quantity), '
+        'unit_of / html_of_unit of each cell.  Proved for the model: positional data pairs by position for distinct keys, rows in substance order, each cell '
+        'formatted from its own magnitude and unit (table_positional_cell, table_rows_spec); that the real containers behave like the model\'s keyed / '
+        'positional containers is decided by correspondence and by the oracle (every cell read back: value given for THAT substance in ITS unit, unit after it)',
         'string-level reading of the LaTeX / unicode / HTML mark-up (theorems give the structure: significand text, integer exponent, fixed '
         'templates; the mark-up is read back by the oracle only)',
         'fmt given as a callable; numbers carrying .uncertainty other than quantities.UncertainQuantity; -0.0, inf, nan',
@@ -346,7 +360,8 @@ class C20(Property):
                ('chempy/printing/numbers.py', 'number_to_scientific_latex'), ('chempy/printing/numbers.py', 'number_to_scientific_unicode'),
                ('chempy/printing/numbers.py', 'number_to_scientific_html'),
                ('chempy/printing/string.py', 'StrPrinter._Reaction_param_str'), ('chempy/printing/string.py', 'StrPrinter._print_Reaction'),
-               ('chempy/printing/printer.py', 'Printer'))
+               ('chempy/printing/printer.py', 'Printer'), ('chempy/printing/table.py', 'as_per_substance_html_table'),
+               ('chempy/printing/table.py', 'Table._html'))
 
     # ---- generation ---------------------------------------------------------------------------
     def _float(self, rng):
@@ -441,6 +456,17 @@ class C20(Property):
             for p in (1, 3, 4, 5, 6):
                 cases.append({'op': 'fmt_g', 'p': p, 'xf': float(x).hex()})
                 cases.append({'op': 'number_to_x', 'fmt': FMTS[(p + int(abs(x))) % 3], 'p': p, 'xf': float(x).hex(), 'unit': None})
+        # per-substance HTML table: container type x value kind (plain numbers, quantities in one unit, quantities with mixed prefixes)
+        for container in KEYED + POSITIONAL:
+            for kind in ('plain', 'quantity', 'mixed'):
+                for _ in range(2):
+                    c = self._table_case(rng, container, kind)
+                    if c is not None:
+                        cases.append(c)
+        cases.append({'op': 'html_table', 'container': 'ndarray', 'keys': ['H+', 'OH-', 'H2O'], 'values': [h.hex() for h in (1e-7, 2.5e-7, 55.4)],
+                      'units': [[['mol', 1], ['dm', -3]]] * 3, 'header': 'c', 'subst': True, 'order': [0, 1, 2]})
+        cases.append({'op': 'html_table', 'container': 'list', 'keys': ['H2O', 'H+', 'OH-'], 'values': [h.hex() for h in (2e-3, 3.5, 1e-7)],
+                      'units': [[['molar', 1]], [['mM', 1]], [['uM', 1]]], 'header': None, 'subst': True, 'order': [0, 1, 2]})
         # the reviewer's float near-ties (real code and exact model differ; float mirror + oracle-with-slack run on them)
         for x, xe, p in ((2.675, 0.01, 1), (6.82025e25, 4.742e24, 4), (-8.349030831480901, 0.0007455, 3), (1.005, 0.01, 1),
                          (0.125, 0.01, 1), (2.5, 1.0, 1), (1.15, 0.1, 1), (1234.5, 1.0, 1), (999.9999999999999, 1.0, 1),
@@ -497,6 +523,9 @@ class C20(Property):
                 if dflt and -(ilog10(abs(F(xe))) - 2 + 1) >= 305:
                     c['p'] = p
                 cases.append(c)
+            elif r < 0.84:
+                c = self._table_case(rng, rng.choice(KEYED + POSITIONAL), rng.choice(['plain', 'quantity', 'quantity', 'mixed', 'mixed']))
+                cases.append(c if c is not None else {'op': 'roman', 'n': rng.randint(1, 3999)})
             elif r < 0.87:
                 cases.append({'op': 'roman', 'n': rng.choice([rng.randint(0, 5000), rng.randint(1, 3999), rng.randint(0, 10 ** rng.randint(1, 5))])})
             elif r < 0.97:
@@ -525,6 +554,65 @@ class C20(Property):
                 else:
                     cases.append({'op': 'pow_ten', 'fmt': rng.choice(FMTS), 'significand': rng.choice(['1', '2.5']), 'mantissa': rng.choice(['', 'x', '+', '1e', '--1'])})
         return cases
+
+    def _table_case(self, rng, container, kind):
+        """as_per_substance_html_table: kind 'plain' = bare numbers, 'quantity' = every value in the same compound unit,
+        'mixed' = scalar quantities with different prefixes/units per substance (not possible for an array Quantity / QuantityDict)"""
+        if kind == 'mixed' and container in ('ndarray', 'qdict'):
+            return None
+        if kind == 'plain' and container == 'qdict':
+            return None
+        n = rng.randint(1, 6)
+        keys = rng.sample(TABLE_KEYS, n)
+        vals = []
+        for _ in range(n):
+            x = abs(self._float(rng))
+            while not (1e-30 < x < 1e30):
+                x = abs(self._float(rng))
+            vals.append(x if rng.random() < 0.85 else -x)
+        if kind == 'plain':
+            units = [None] * n
+        elif kind == 'quantity':
+            units = [rng.choice(CONC_UNITS + UNITS)] * n
+        else:
+            units = [rng.choice(CONC_UNITS) for _ in range(n)]
+        order = list(range(n))
+        subst = True
+        if container in KEYED:
+            rng.shuffle(order)                       # insertion order of the container differs from the substance order
+            subst = rng.random() < 0.6               # False: substances are derived from the container (its order decides)
+        return {'op': 'html_table', 'container': container, 'keys': keys, 'values': [v.hex() for v in vals], 'units': units,
+                'header': rng.choice([None, 'c', 'Concentration / M']), 'subst': subst, 'order': order}
+
+    def _table_parts(self, c):
+        """-> (container object, substances | None, header, expected rows [(key, html name, float, unit | None)] in row order)"""
+        from collections import OrderedDict
+        import numpy as np
+        from chempy import Substance
+        keys, order = c['keys'], c['order']
+        xs = [fx(h) for h in c['values']]
+        us = [make_unit(u) if u is not None else None for u in c['units']]
+        vals = [x * u if u is not None else x for x, u in zip(xs, us)]
+        kind = c['container']
+        row_order = list(range(len(keys))) if c['subst'] else list(order)
+        substances = OrderedDict((keys[i], Substance.from_formula(keys[i])) for i in row_order)
+        if kind in KEYED:
+            items = [(keys[i], vals[i]) for i in order]
+            if kind == 'dict':
+                cont = dict(items)
+            elif kind == 'odict':
+                cont = OrderedDict(items)
+            else:
+                from chempy._solution import QuantityDict
+                cont = QuantityDict(us[0], OrderedDict(items))
+        elif kind == 'list':
+            cont = list(vals)
+        elif kind == 'tuple':
+            cont = tuple(vals)
+        else:
+            cont = np.array(xs) * us[0] if us[0] is not None else np.array(xs)
+        expected = [(keys[i], substances[keys[i]].html_name, xs[i], us[i]) for i in row_order]
+        return cont, (substances if c['subst'] else None), c['header'], expected
 
     # ---- model side ---------------------------------------------------------------------------
     def _unit_text(self, fmt, unit):
@@ -574,6 +662,20 @@ class C20(Property):
                 m['mode'] = 'both'
                 m['exact'] = uncert_modelled(mag, um, 2 if c['p'] is None else c['p'])
             return m
+        if op == 'html_table':
+            from chempy.units import html_of_unit
+            _cont, _subst, header, expected = self._table_parts(c)
+            cell = {c['keys'][i]: {'mag': ratio(fx(c['values'][i])),
+                                   'unit': html_of_unit(make_unit(c['units'][i])) if c['units'][i] is not None else None} for i in range(len(c['keys']))}
+            m = {'op': 'html_table', 'case': c, 'header': header or '',
+                 'substances': [{'key': k, 'name': nm} for k, nm, _x, _u in expected]}
+            if c['container'] in KEYED:
+                m['kind'] = 'keyed'
+                m['entries'] = [dict(cell[c['keys'][i]], key=c['keys'][i]) for i in c['order']]
+            else:
+                m['kind'] = 'positional'
+                m['entries'] = [cell[k] for k in c['keys']]
+            return m
         if op == 'float_str_w_uncert':
             x, xe = fx(c['xf']), fx(c['xef'])
             return dict(c, x=ratio(x), xe=ratio(xe), xb=bits(x), xeb=bits(xe), mode='both', exact=uncert_modelled(x, xe, c['p']))
@@ -610,6 +712,10 @@ class C20(Property):
                 return f(number, unc, to, m['p'])
             if op == 'float_str_w_uncert':
                 return N._float_str_w_uncert(fx(m['xf']), fx(m['xef']), m['p'])
+            if op == 'html_table':
+                from chempy.printing import as_per_substance_html_table, html
+                cont, subst, header, _exp = self._table_parts(m['case'])
+                return html(as_per_substance_html_table(cont, subst, header)).replace('\n', '\\n')
             if op == 'roman':
                 return N.roman(m['n'])
             if op == 'pow_ten':
@@ -657,6 +763,25 @@ class C20(Property):
                 return 'roman(%d) = %r has a non-roman character' % (n, s)
             if read_roman(s) != n:
                 return 'roman(%d) = %r reads back as %d' % (n, s, read_roman(s))
+            return None
+        if op == 'html_table':
+            from chempy.printing import as_per_substance_html_table, html
+            from chempy.units import html_of_unit
+            cont, subst, header, expected = self._table_parts(c)
+            try:
+                text = html(as_per_substance_html_table(cont, subst, header))
+            except Exception as ex:
+                return 'as_per_substance_html_table(%s of %s) raised %s' % (c['container'], c['units'], exc_name(ex))
+            rows = ROW_RE.findall(text)
+            if len(rows) != len(expected) or text.count('<tr>') != len(expected) + 1:
+                return 'table has %d data rows for %d substances: %r' % (len(rows), len(expected), text[:200])
+            for (name, cell), (key, hname, x, u) in zip(rows, expected):
+                if name != hname:
+                    return 'row order: row shows %r where substance %r (%r) is expected' % (name, key, hname)
+                suffix = ' ' + html_of_unit(u) if u is not None else ''
+                f = check_number_text('html', cell, x, 5, suffix)
+                if f is not None:
+                    return 'cell of %s (given %r %s in a %s): %s' % (key, x, html_of_unit(u) if u is not None else '', c['container'], f)
             return None
         if op == 'fmt_g':
             x, p = fx(c['xf']), max(c['p'], 1)
@@ -765,6 +890,9 @@ class C20(Property):
             return '%s:%s%s' % (op, c['fmt'], ':unit' if c.get('unit') else '')
         if op == 'reaction_line':
             return 'reaction_line:%s:%s' % (c['printer'], c['kind'])
+        if op == 'html_table':
+            kinds = set(json.dumps(u) for u in c['units'])
+            return 'html_table:%s:%s' % (c['container'], 'plain' if c['units'][0] is None else ('quantity' if len(kinds) == 1 else 'mixed-units'))
         if op == 'roman':
             return 'roman:' + ('1..3999' if 1 <= c['n'] <= 3999 else 'outside')
         return op
